@@ -42,6 +42,7 @@ const (
 	iUntilCancelled = iota // waits for ctx.Done, then takes two more steps before returning (exit latency)
 	iReturnNil
 	iReturnErr
+	iReturnCanceled // returns context.Canceled by itself although its context is live: an error like any other
 )
 
 // instance is the body of every managed function instance.
@@ -90,6 +91,8 @@ func instance(ctx context.Context, tag, outcome int, state int) error {
 		err = context.Canceled
 	case iReturnErr:
 		err = errRoutine
+	case iReturnCanceled:
+		err = context.Canceled
 	}
 	vsched.CtrAdd(rActive, -1)
 	vsched.CtrSet(rLeft0+id, 1)
@@ -758,10 +761,10 @@ func init() {
 	})
 	eng.Register(&eng.Scenario{
 		Name: "routine-withretry", Props: []string{"C14", "C05"}, ObsNames: stdObs,
-		Doc:   "RoutineContainer / StateRoutineContainer built through the other option spellings (choice): WithRetry(constant back-off config); WithRetry(config) then WithRetry(nil); NewRoutineContainerWithLogger + WithRetry; NewStateRoutineContainerWithLogger (nil compare function) + WithRetry: the first instance returns an error; with retry configured it is run again by quiescence and exactly one instance is live, without it it is not run again until RestartRoutine; every exit is reported once to the exit callback",
+		Doc:   "RoutineContainer / StateRoutineContainer built through the other option spellings (choice): WithRetry(constant back-off config); WithRetry(config) then WithRetry(nil); WithRetry(&Backoff{}) (all defaults); NewRoutineContainerWithLogger + WithRetry; NewStateRoutineContainerWithLogger (nil compare function) + WithRetry: the first instance returns an error; with retry configured it is run again by quiescence and exactly one instance is live, without it it is not run again until RestartRoutine; every exit is reported once to the exit callback",
 		Quick: eng.Bounds{PB: 2}, Thorough: eng.Bounds{PB: 3},
 		Body: func() {
-			how := vsched.Choose(4)
+			how := vsched.Choose(5)
 			le := logrus.NewEntry(logrus.New())
 			le.Logger.SetOutput(io.Discard)
 			conf := &ubackoff.Backoff{BackoffKind: ubackoff.BackoffKind_BackoffKind_CONSTANT, Constant: &ubackoff.Constant{Interval: 1000}}
@@ -782,8 +785,12 @@ func init() {
 			c := context.WithValue(context.Background(), ctxKey{}, 1)
 			vsched.CtrSet(rCtxTag, 1)
 			vsched.CtrSet(rHasRt, 1)
+			if how == 4 {
+				// a non-nil config with every field (also the kind) left at its zero value: the default exponential back-off
+				conf = &ubackoff.Backoff{}
+			}
 			switch how {
-			case 0, 1, 2:
+			case 0, 1, 2, 4:
 				opts := []routine.Option{routine.WithRetry(conf), exitCb}
 				if how == 1 {
 					opts = append(opts, routine.WithRetry(nil))
@@ -841,6 +848,7 @@ func init() {
 
 // newRCRetry: the first entry returns an error, all later ones run until cancelled.
 func newRCRetry() *rcOps {
+	firstErr := []int{iReturnErr, iReturnCanceled}[vsched.Choose(2)] // which error the first instance returns
 	k := routine.NewRoutineContainer(routine.WithBackoff(&constBackoff{}), exitObs())
 	vsched.CtrSet(rTagsExact, 1)
 	return &rcOps{
@@ -848,7 +856,7 @@ func newRCRetry() *rcOps {
 			ch, _ := k.SetRoutine(func(ctx context.Context) error {
 				out := iUntilCancelled
 				if vsched.CtrAdd(rRuns, 1) == 1 {
-					out = iReturnErr
+					out = firstErr
 				}
 				return instance(ctx, tag, out, 0)
 			})
